@@ -655,92 +655,74 @@ def rule_nested_contains(ctx: Ctx, rule: str = "nested-exists") -> None:
 
 
 def rule_nested_le(ctx: Ctx, rule: str = "nested-forall-exists") -> None:
-    """C17: NestedTermList.__le__ answers True iff every left alternative is <= some right alternative (assumption-
-    driven: every truth assignment to 'left i <= right j' for i, j < 2 and every number 0..2 of alternatives)."""
+    """C17: NestedTermList.__le__ answers True iff every left alternative is <= some right alternative.  Decided with
+    the two lists' lengths fixed (0..2 each) and every truth assignment to 'left i <= right j': the run is then
+    deterministic and its answer must be the specification's."""
     from itertools import product
 
     prog = ctx.prog
     fi = prog.func("NestedTermList.__le__")
     me, ot = fi.params[0], fi.params[1]
+    L, R = ("attr", ("param", me), "nested_termlist"), ("attr", ("param", ot), "nested_termlist")
     n = 0
     bad_shape = set()
-    for bits in product([False, True], repeat=4):
-        T = [[bits[0], bits[1]], [bits[2], bits[3]]]
+    construct = "nested <=: True iff every left alternative refines some right alternative"
+    verdict = None
+    for nl, nr in product(range(3), range(3)):
+        for bits in product([False, True], repeat=nl * nr):
+            T = [[bits[i * nr + j] for j in range(nr)] for i in range(nl)]
 
-        def extra(v, T=T):
-            if isinstance(v, tuple) and v[0] == "call" and v[1] == "isinstance":
-                return const(True)
-            if isinstance(v, tuple) and v[0] == "cmp" and v[1] in ("LtE", "GtE"):
-                l, r = (v[2], v[3]) if v[1] == "LtE" else (v[3], v[2])
-                i, j = _iter_index(l, me, "nested_termlist"), _iter_index(r, ot, "nested_termlist")
-                if i is not None and j is not None and i < 2 and j < 2:
-                    return const(T[i][j])
-                if _iter_index(l, ot, "nested_termlist") is not None or _iter_index(r, me, "nested_termlist") is not None:
-                    bad_shape.add(show(v, 3))
-            if isinstance(v, tuple) and v[0] == "mcall" and v[1] == "refines":
-                i, j = _iter_index(v[2], me, "nested_termlist"), _iter_index(v[3][0] if v[3] else None, ot, "nested_termlist")
-                if i is not None and j is not None and i < 2 and j < 2:
-                    return const(T[i][j])
-            return None
+            def extra(v, T=T, nl=nl, nr=nr):
+                if isinstance(v, tuple) and v[0] == "call" and v[1] == "isinstance":
+                    return const(True)
+                if isinstance(v, tuple) and v[0] == "call" and v[1] == "len" and len(v[2]) == 1 and v[2][0] in (L, R):
+                    return const(nl if v[2][0] == L else nr)
+                if v in (L, R):
+                    return None
+                if isinstance(v, tuple) and v[0] == "cmp" and v[1] in ("LtE", "GtE"):
+                    l, r = (v[2], v[3]) if v[1] == "LtE" else (v[3], v[2])
+                    i, j = _iter_index(l, me, "nested_termlist"), _iter_index(r, ot, "nested_termlist")
+                    if i is not None and j is not None and i < nl and j < nr:
+                        return const(T[i][j])
+                    if _iter_index(l, ot, "nested_termlist") is not None or _iter_index(r, me, "nested_termlist") is not None:
+                        bad_shape.add(show(v, 3))
+                if isinstance(v, tuple) and v[0] == "mcall" and v[1] == "refines":
+                    i, j = _iter_index(v[2], me, "nested_termlist"), _iter_index(v[3][0] if v[3] else None, ot, "nested_termlist")
+                    if i is not None and j is not None and i < nl and j < nr:
+                        return const(T[i][j])
+                return None
 
-        ps = Sim(prog, fi, loop_iters=(0, 1, 2), assume=extra, max_paths=20000).paths()
-        seen = set()
-        for p in ps:
-            if p.terminal != "return":
-                continue
-            # number of left alternatives = iterations of the loop over self; right alternatives: at most what was visited
-            outer = [e for e in p.events if e["kind"] == "loop-iter" and _is_param_attr(e.get("it"), me, "nested_termlist")]
-            inner_per_outer: List[int] = []
-            for e in p.events:
-                if e["kind"] == "loop-iter" and _is_param_attr(e.get("it"), me, "nested_termlist"):
-                    inner_per_outer.append(0)
-                elif e["kind"] == "loop-iter" and _is_param_attr(e.get("it"), ot, "nested_termlist") and inner_per_outer:
-                    inner_per_outer[-1] = max(inner_per_outer[-1], e["index"] + 1)
-            # the right-hand list has one fixed length m in a real run: keep only paths whose inner counts are consistent
-            decided = [c for (t, c) in p.decisions if t.startswith("loop@")]
-            key_ = (tuple(decided), p.value)
-            if key_ in seen:
-                continue
-            seen.add(key_)
-            n_left = len(outer)
-            ms = set()
-            # inner loop decisions: all decisions except the first (outer) one
-            inner_decisions = decided[1:] if decided else []
-            if len(set(inner_decisions)) > 1:
-                continue  # inconsistent: the right list cannot have two different lengths
-            m = inner_decisions[0] if inner_decisions else None
-            if not decided:
-                continue
-            n_outer_decided = decided[0]
-            if m is None:
-                if n_outer_decided != 0:
-                    # left alternatives exist but the right list was never looked at: treated by the early-exit rule below
-                    m = 0
-                else:
-                    m = 0
-            want = all(any(T[i][j] for j in range(m)) for i in range(n_outer_decided))
-            # a path that stopped early (return False on the first unmatched left alternative) visits fewer left
-            # alternatives than decided; its answer must still be the specification's answer
-            n += 1
-            construct = "nested <=: True iff every left alternative refines some right alternative"
-            if p.value == const(want):
-                ctx.ok(rule, fi.key, construct + " @ left=%d right=%d %s" % (n_outer_decided, m, bits), nontrivial=n_outer_decided > 0 and m > 0)
-            else:
-                ctx.violation(rule, fi.key, construct, "with %d left / %d right alternatives and answers left_i<=right_j = %s the result is %s (path %s)" % (n_outer_decided, m, T, show(p.value), p.label()[:100]), where=fi.where)
+            ps = Sim(prog, fi, assume=extra, seq_len={L: nl, R: nr}, max_paths=4000).paths()
+            want = all(any(T[i][j] for j in range(nr)) for i in range(nl))
+            for p in ps:
+                if p.terminal != "return":
+                    verdict = verdict or ("violation", "raises %s with %d left / %d right alternatives" % (p.exc_cls, nl, nr))
+                    continue
+                n += 1
+                # truthiness tests of the lists themselves (`if not other.nested_termlist`) fork: keep the consistent branch
+                consistent = True
+                for e in p.events:
+                    if e["kind"] == "branch" and e["test"] in (L, R):
+                        if e["taken"] != ((nl if e["test"] == L else nr) > 0):
+                            consistent = False
+                    if e["kind"] == "branch" and e["test"] in (("un", "Not", L), ("un", "Not", R)):
+                        if e["taken"] != ((nl if e["test"][2] == L else nr) == 0):
+                            consistent = False
+                if not consistent:
+                    continue
+                if not is_const(p.value):
+                    verdict = verdict or ("undecided", "the answer %s is not decided by the comparisons (left=%d right=%d)" % (show(p.value, 3), nl, nr))
+                elif p.value != const(want):
+                    verdict = verdict or ("violation", "with %d left / %d right alternatives and answers left_i<=right_j = %s the result is %s (path %s)" % (nl, nr, T, show(p.value), p.label()[:100]))
     if bad_shape:
         ctx.violation(rule, fi.key, "nested <=: alternatives are compared left <= right", "compares %s" % sorted(bad_shape)[:2], where=fi.where)
-    # early exits before any alternative is looked at
-    ps = Sim(prog, fi, loop_iters=(0, 1, 2), assume=lambda v: const(True) if isinstance(v, tuple) and v[0] == "call" and v[1] == "isinstance" else None).paths()
-    for p in ps:
-        if p.terminal != "return" or any(t.startswith("loop@") for (t, _c) in p.decisions):
-            continue
-        construct = "nested <=: no answer is given before the alternatives are looked at, unless the left side is empty"
-        left_empty = any(e["kind"] == "branch" and mentions(e["test"], lambda x: x == ("attr", ("param", me), "nested_termlist")) and not mentions(e["test"], lambda x: x == ("attr", ("param", ot), "nested_termlist")) for e in p.events)
-        if p.value == const(True) and left_empty:
-            ctx.ok(rule, fi.key, construct)
-        else:
-            ctx.violation(rule, fi.key, construct, "answers %s without comparing any alternative (path %s): an empty right side contains nothing" % (show(p.value), p.label()), where=fi.where)
-    ctx.floor("nested <= evaluations", n, 40)
+    if verdict is None:
+        ctx.ok(rule, fi.key, construct + " (%d deterministic runs: lengths 0..2 x 0..2, every answer table)" % n)
+    elif verdict[0] == "undecided":
+        ctx.cannot_decide(rule, fi.key, construct, verdict[1])
+    else:
+        ctx.violation(rule, fi.key, construct, verdict[1], where=fi.where)
+    ctx.floor("nested <= evaluations", n, 25)
 
 
 def rule_nested_intersect(ctx: Ctx, rule: str = "nested-intersect") -> None:
@@ -870,8 +852,9 @@ def rule_nested_ctor(ctx: Ctx, rule: str = "nested-disjoint") -> None:
             return const(True)
         return None
 
-    ps = Sim(prog, fi, loop_iters=(0, 1, 2, N), assume=all_empty, max_paths=40000).paths()
-    fps = full_paths(ps)
+    three = {("param", lst): N}
+    ps = Sim(prog, fi, assume=all_empty, seq_len=three, max_paths=40000).paths()
+    fps = [p for p in ps if p.terminal in ("return", "raise")]
     construct = "nested constructor: every pair of distinct alternatives is tested for a shared behaviour"
     if not fps:
         ctx.cannot_decide(rule, fi.key, construct, "no path on which three alternatives are traversed")
@@ -905,7 +888,7 @@ def rule_nested_ctor(ctx: Ctx, rule: str = "nested-disjoint") -> None:
             return None
 
         # a path that raises stops early, so the loop counts are fixed to N instead of filtered afterwards
-        ps2 = [p for p in Sim(prog, fi, loop_iters=(N,), assume=one_overlap, max_paths=40000).paths()]
+        ps2 = [p for p in Sim(prog, fi, assume=one_overlap, seq_len=three, max_paths=40000).paths()]
         construct = "nested constructor: alternatives %d and %d sharing a behaviour raise ValueError" % bad
         outs = {(p.terminal, p.exc_cls) for p in ps2}
         if outs == {("raise", "ValueError")}:
